@@ -1349,3 +1349,133 @@ Section Term.
   Lemma mu_bound d f : mu d f < S (S max_comp_depth * span).
   Proof. unfold mu. pose proof (rho_lt_span f). nia. Qed.
 End Term.
+
+(* ================================================================== where lineage chunks come from *)
+
+Lemma minsert_In {V} k (v : V) mm k' v' :
+  In (k', v') (minsert k v mm) -> (k' = k /\ v' = v) \/ In (k', v') mm.
+Proof.
+  induction mm as [|[k1 v1] mm IH]; simpl.
+  - intros [E|[]]. injection E as <- <-. auto.
+  - destruct (name_cmp k k1); simpl.
+    + intros [E|H]; [injection E as <- <-; auto | auto].
+    + intros [E|H]; [injection E as <- <-; auto | auto].
+    + intros [E|H]; [auto|]. destruct (IH H); auto.
+Qed.
+
+Definition psof (par : fmap (list name)) (n : name) : list name :=
+  match mfind n par with Some ps => ps | None => [] end.
+
+Section Origin.
+  Variable m : smap.
+  Variable par : fmap (list name).
+  Hypothesis chain : forall n p, In p (psof par n) -> incl (psof par p) (psof par n).
+  Hypothesis m_nodup : NoDup (mkeys m).
+
+  Definition blk_of (w : name) (ch : chunk) : Prop :=
+    exists tw bn, mfind w m = Some tw /\ In (bn, ch) (td_blocks tw).
+  Definition good (n : name) (ch : chunk) : Prop :=
+    exists w, In w (n :: psof par n) /\ blk_of w ch.
+  Definition good_lin (n : name) (lin : fmap (list chunk)) : Prop :=
+    forall b chs ch, In (b, chs) lin -> In ch chs -> good n ch.
+
+  Lemma lineage_up_origin b near ch :
+    In ch (lineage_up m b near) -> exists p, In p near /\ blk_of p ch.
+  Proof.
+    induction near as [|p near IH]; simpl; [tauto|].
+    destruct (mfind p m) as [pt|] eqn:Ep.
+    - destruct (mfind b (td_blocks pt)) as [pch|] eqn:Eb.
+      + intros [<-|Hin].
+        * exists p. split; auto. exists pt, b. split; auto. apply mfind_In. exact Eb.
+        * destruct (calls_super pch); [|destruct Hin]. destruct (IH Hin) as [q [Hq Hb]]. eauto.
+      + intros Hin. destruct (IH Hin) as [q [Hq Hb]]. eauto.
+    - intros Hin. destruct (IH Hin) as [q [Hq Hb]]. eauto.
+  Qed.
+
+  Lemma own_lineage_good n t :
+    mfind n m = Some t -> good_lin n (own_lineage m (psof par n) t).
+  Proof.
+    intros Ht. unfold own_lineage.
+    assert (forall l, incl l (td_blocks t) ->
+              good_lin n (fold_right
+                (fun bc acc => minsert (fst bc)
+                   (snd bc :: (if calls_super (snd bc) then lineage_up m (fst bc) (rev (psof par n)) else []))
+                   acc) [] l)) as H.
+    { induction l as [|[bn bch] l IH]; intros Hincl b chs ch Hin Hch; cbn [fold_right fst snd] in Hin; [destruct Hin|].
+      apply minsert_In in Hin. destruct Hin as [[-> ->]|Hin].
+      - destruct Hch as [<-|Hch].
+        + exists n. split; [simpl; auto|]. exists t, bn. split; auto. apply Hincl. simpl. auto.
+        + destruct (calls_super bch); [|destruct Hch].
+          apply lineage_up_origin in Hch. destruct Hch as [p [Hp Hb]].
+          exists p. split; auto. simpl. right. apply in_rev. exact Hp.
+      - eapply IH; eauto. intros z Hz. apply Hincl. simpl. auto. }
+    apply H. apply incl_refl.
+  Qed.
+
+  Lemma or_insert_all_In from : forall into b chs,
+    In (b, chs) (or_insert_all from into) -> In (b, chs) into \/ In (b, chs) from.
+  Proof.
+    unfold or_insert_all. induction from as [|[fb fchs] from IH]; intros into b chs H; simpl in H; auto.
+    apply IH in H. destruct H as [H|H]; [|simpl; auto].
+    destruct (mmem fb into); auto.
+    apply minsert_In in H. destruct H as [[-> ->]|H]; simpl; auto.
+  Qed.
+
+  Lemma good_up n p ch : In p (psof par n) -> good p ch -> good n ch.
+  Proof.
+    intros Hp (w & Hw & Hb). exists w. split; auto. simpl. right.
+    destruct Hw as [<-|Hw]; auto. eapply chain; eauto.
+  Qed.
+
+  Definition J (tb : fmap (fmap (list chunk))) : Prop :=
+    forall k lin, In (k, lin) tb -> good_lin k lin.
+
+  Lemma inherit_one_J tb n : J tb -> J (inherit_one par tb n).
+  Proof.
+    unfold inherit_one. change (match mfind n par with Some ps => ps | None => [] end) with (psof par n).
+    assert (forall l tb0, incl l (psof par n) -> J tb0 ->
+              J (fold_left (fun tb p => match mfind p tb, mfind n tb with
+                                        | Some pb, Some cb => minsert n (or_insert_all pb cb) tb
+                                        | _, _ => tb
+                                        end) l tb0)) as H.
+    { induction l as [|p l IH]; intros tb0 Hincl Hj; simpl; auto.
+      apply IH; [intros z Hz; apply Hincl; simpl; auto|].
+      destruct (mfind p tb0) as [pb|] eqn:Ep; auto. destruct (mfind n tb0) as [cb|] eqn:En; auto.
+      intros k lin Hin. apply minsert_In in Hin. destruct Hin as [[-> ->]|Hin]; [|apply Hj; auto].
+      intros b chs ch Hb Hch. apply or_insert_all_In in Hb. destruct Hb as [Hb|Hb].
+      - eapply (Hj n cb); eauto. apply mfind_In. exact En.
+      - apply (good_up n p); [apply Hincl; simpl; auto|].
+        eapply (Hj p pb); eauto. apply mfind_In. exact Ep. }
+    intros Hj. apply H; auto. intros z Hz. apply in_rev. exact Hz.
+  Qed.
+
+  Lemma fold_inherit_J keys : forall tb, J tb -> J (fold_left (inherit_one par) keys tb).
+  Proof.
+    induction keys as [|k keys IH]; simpl; auto. intros tb Hj. apply IH. apply inherit_one_J. exact Hj.
+  Qed.
+
+  Lemma tb0_J : J (map (fun nt => (fst nt, own_lineage m (psof par (fst nt)) (snd nt))) m).
+  Proof.
+    intros k lin Hin. apply in_map_iff in Hin. destruct Hin as [[n t] [E Hin]].
+    simpl in E. injection E as <- <-. apply own_lineage_good. apply In_mfind; auto.
+  Qed.
+
+  (* the include names of a chunk that comes from n or one of its parents are followed by the
+     repaired walk from n *)
+  Lemma chunk_of_chain_followed pre n w tw ch i u :
+    In w (n :: psof par n) -> mfind w m = Some tw -> In ch (td_chunks tw) ->
+    In (OInclude i) ch -> resolve pre m i = Some u ->
+    In u (inc_succ_fixed pre m par n).
+  Proof.
+    intros Hw Htw Hch Hi Hr. unfold inc_succ_fixed.
+    change (match mfind n par with Some ps => ps | None => [] end) with (psof par n).
+    apply filter_map_In. exists i. split; auto.
+    apply nsort_In.
+    assert (In i (own_includes m w)) as Hown.
+    { unfold own_includes. rewrite Htw. unfold td_includes. apply nsort_In.
+      apply in_flat_map. exists ch. split; auto.
+      unfold chunk_includes. apply in_flat_map. exists (OInclude i). split; simpl; auto. }
+    apply in_or_app. destruct Hw as [<-|Hw]; auto.
+    right. apply in_flat_map. exists w. auto.
+  Qed.
+End Origin.
